@@ -3,7 +3,10 @@
 // capacity() are the property's observation points; unit shard proves what the inner getters' per-shard terms mean)
 #![allow(unused_imports, unused_variables, dead_code, unused_mut)]
 use vstd::prelude::*;
+use vstd::std_specs::iter::IteratorSpec;
 verus! {
+
+global size_of usize == 8;
 
 /// one RawCache instantiation as seen by the facade: three independent quantities
 pub struct RawT { pub cap: usize, pub usg: usize, pub ent: usize, pub shd: usize }
@@ -33,6 +36,43 @@ impl Cache {
 //@fn foyer-memory/src/cache.rs :: impl~^impl<K, V, S, P> Cache<K, V, S, P>/fn shards ret=r
 //@spec
         ensures r == self.raw().shd, // @label shards_is_the_shard_count_of_the_cache_inside
+//@end
+}
+
+
+// ---- RawCache::usage / entries: the sum over ALL shards of that shard's usage / entry count (the iterator sum is written
+// as the loop it is by rule iter-arg; `.sum()` panics on overflow, the precondition excludes it)
+pub struct ShardViewT { pub usage: usize, pub entries: usize }
+pub struct ShardLockT { pub v: ShardViewT }
+impl ShardLockT { pub fn read(&self) -> (r: &ShardViewT) ensures *r == self.v { &self.v } }
+pub struct InnerT { pub shards: Vec<ShardLockT> }
+pub struct RawCacheT { pub inner: InnerT }
+/// sum of the shards' usage from shard i on
+pub open spec fn usage_from(s: Seq<ShardLockT>, i: int) -> nat decreases s.len() - i { if i < 0 || i >= s.len() { 0 } else { s[i].v.usage as nat + usage_from(s, i + 1) } }
+pub open spec fn entries_from(s: Seq<ShardLockT>, i: int) -> nat decreases s.len() - i { if i < 0 || i >= s.len() { 0 } else { s[i].v.entries as nat + entries_from(s, i + 1) } }
+pub fn verif_zero() -> (r: usize) ensures r == 0 { 0 }
+impl RawCacheT {
+//@fn foyer-memory/src/raw.rs :: impl~^impl<E, S, I> RawCache<E, S, I> where/fn usage ret=r rules=iter-arg
+//@spec
+        requires usage_from(self.inner.shards@, 0) <= usize::MAX,
+        ensures r == usage_from(self.inner.shards@, 0), // @label usage_is_the_sum_of_the_usage_of_every_shard
+//@loop 1 iter=it
+            invariant
+                it.snapshot@.remaining().len() == self.inner.shards@.len(),
+                forall|i: int| 0 <= i < self.inner.shards@.len() ==> *(#[trigger] it.snapshot@.remaining()[i]) == self.inner.shards@[i],
+                verif_s + usage_from(self.inner.shards@, it.index@ as int) == usage_from(self.inner.shards@, 0),
+                usage_from(self.inner.shards@, 0) <= usize::MAX,
+//@end
+//@fn foyer-memory/src/raw.rs :: impl~^impl<E, S, I> RawCache<E, S, I> where/fn entries ret=r rules=iter-arg
+//@spec
+        requires entries_from(self.inner.shards@, 0) <= usize::MAX,
+        ensures r == entries_from(self.inner.shards@, 0), // @label entries_is_the_sum_of_the_entry_count_of_every_shard
+//@loop 1 iter=it
+            invariant
+                it.snapshot@.remaining().len() == self.inner.shards@.len(),
+                forall|i: int| 0 <= i < self.inner.shards@.len() ==> *(#[trigger] it.snapshot@.remaining()[i]) == self.inner.shards@[i],
+                verif_s + entries_from(self.inner.shards@, it.index@ as int) == entries_from(self.inner.shards@, 0),
+                entries_from(self.inner.shards@, 0) <= usize::MAX,
 //@end
 }
 
